@@ -6,3 +6,6 @@ open GoguVerif.Theorems.C01
 #print axioms table_sections_wellLocked
 #print axioms containers_race_free
 #print axioms containers_deadlock_free
+#print axioms quiescent_is_init
+#print axioms quiescent_admits_everyone
+#print axioms can_always_leave
